@@ -47,7 +47,7 @@ def opt_case(draw, tier='quick'):
     if draw(st.integers(0, 5)) == 0:
         return draw(dedup_unit_case())
     which = draw(st.sampled_from(['hier', 'lattice', 'hex', 'prune',
-                                  'twin']))
+                                  'twin', 'facets', 'facetfill']))
     if which == 'twin':
         # one universe in several containers under related transformations,
         # reflections included (the relation between outputs needs no MCNP
@@ -55,6 +55,14 @@ def opt_case(draw, tier='quick'):
         case = draw(gen_hier.twin_fill_case(tier, mirrors=True))
     elif which == 'hier':
         case = draw(gen_hier.hier_case(tier, {'lattice': True}))
+    elif which == 'facetfill':
+        case = draw(gen_hier.facet_fill_case(tier))
+    elif which == 'facets':
+        # macrobodies and their facets on every level, fillers cut by facets
+        # of the body that bounds their container: inlining and
+        # de-duplication must keep b, b.1 and b.3 apart
+        case = draw(gen_hier.hier_case(tier, {'lattice': False,
+                                              'facet_bias': True}))
     elif which == 'lattice':
         case = draw(gen_hier.hier_case(tier, {'lattice': 'force',
                                               'max_depth': 2}))
